@@ -46,7 +46,7 @@ class Runner:
         self.lean = opts.get('lean') == '1' or opts.get('set') == 'q'
         self.flavour = opts.get('flavour', 'plain')
         if 'set' in opts:   # called from checks/c17.py
-            self.n, self.edges = (2, None) if opts['set'] == 'q' else (3, 2)
+            self.n, self.edges = (2, None) if opts['set'] == 'q' else (3, 1)   # C17 thorough: same bound as C20 thorough
         self.lcx = None
         self.tmp = None
         self._cases = None
